@@ -654,4 +654,328 @@ theorem occ_topLin (t : Lin) (h : WF' t) : occ (topLin t) 0 = occ t 0 := by
   rw [topLin_eq t h]
   exact count_topGs t 0
 
+
+/-! ### composing a chain back -/
+
+/-- fan-outs as `unbinChain` reads them off a chain -/
+def fosOf (chain : List (Func × Lin)) : List Nat :=
+  (chain.map fun x => (fanOut x.2)[1]?.getD 0) ++
+    [((chain.getLast?.map fun x => (fanOut x.2)[2]?.getD 0).getD 0)]
+
+theorem unbinChain_long (a b : Func × Lin) (rest : List (Func × Lin)) :
+    unbinChain (a :: b :: rest) =
+      match evalChain ((a :: b :: rest).map (·.2))
+          ((fosOf (a :: b :: rest)).zipIdx.map fun p => formalBlocks p.2 p.1) with
+      | some blocks =>
+        some (a.1.head?.getD [] :: (((a :: b :: rest).map fun x => x.1[1]?.getD []) ++
+            [((a :: b :: rest).getLast?.map fun x => x.1[2]?.getD []).getD []]),
+          blocks.map fun arg => arg.map fun p => ((p.1 : Int), p.2))
+      | none => none := by
+  obtain ⟨fa, la⟩ := a
+  obtain ⟨fb, lb⟩ := b
+  rfl
+
+theorem getLast?_cons_ne {α} (a : α) (l : List α) (h : l ≠ []) : (a :: l).getLast? = l.getLast? := by
+  cases l with
+  | nil => exact absurd rfl h
+  | cons b r => rw [List.getLast?_cons_cons]
+
+theorem chainR_ne_nil (func : Func) (k i : Nat) (h : Str) (t : Lin) (s : Nat) : chainR func k i h t s ≠ [] := by
+  cases k <;> simp [chainR]
+
+theorem chainR_lins (func : Func) : ∀ (k i : Nat) (h : Str) (t : Lin) (s : Nat),
+    (chainR func k i h t s).map (·.2) = chainLins t k
+  | 0, _, _, _, _ => rfl
+  | k + 1, i, h, t, s => by simp [chainR, chainLins, chainR_lins func k]
+
+theorem chainR_firsts (func : Func) : ∀ (k i : Nat) (h : Str) (t : Lin) (s : Nat),
+    (chainR func k i h t s).map (fun x => x.1[1]?.getD []) = (List.range' i (k + 1)).map (fun j => func[j]?.getD [])
+  | 0, _, _, _, _ => by simp [chainR]
+  | k + 1, i, h, t, s => by
+    rw [List.range'_succ]
+    simp [chainR, chainR_firsts func k]
+
+theorem chainR_lastSecond (func : Func) : ∀ (k i : Nat) (h : Str) (t : Lin) (s : Nat),
+    ((chainR func k i h t s).getLast?.map fun x => x.1[2]?.getD []).getD [] = func[i + k + 1]?.getD []
+  | 0, _, _, _, _ => by simp [chainR]
+  | k + 1, i, h, t, s => by
+    simp only [chainR]
+    rw [getLast?_cons_ne _ _ (chainR_ne_nil _ _ _ _ _ _), chainR_lastSecond func k]
+    congr 2; omega
+
+theorem fosOf_cons (a : Func × Lin) (l : List (Func × Lin)) (h : l ≠ []) :
+    fosOf (a :: l) = (fanOut a.2)[1]?.getD 0 :: fosOf l := by
+  simp [fosOf, getLast?_cons_ne a l h]
+
+theorem fosOf_chainR (func : Func) : ∀ (k i : Nat) (h : Str) (t : Lin) (s : Nat), WF' t →
+    fosOf (chainR func k i h t s) = (List.range (k + 2)).map (occ t)
+  | 0, _, _, t, _, _ => by
+    simp only [chainR, fosOf, List.map_cons, List.map_nil, List.getLast?_singleton, Option.map_some,
+      Option.getD_some]
+    have h0 := fanOut_get t 0
+    have h1 := fanOut_get t 1
+    simp only [Nat.zero_add] at h0 h1
+    rw [h0, h1]
+    rfl
+  | k + 1, i, h, t, s, hw => by
+    simp only [chainR]
+    rw [fosOf_cons _ _ (chainR_ne_nil _ _ _ _ _ _), fosOf_chainR func k _ _ _ _ (WF'_restLin t hw)]
+    have h0 := fanOut_get (topLin t) 0
+    simp only [Nat.zero_add] at h0
+    rw [h0, occ_topLin t hw, List.range_succ_eq_map (n := k + 2)]
+    simp only [List.map_cons, List.map_map]
+    congr 1
+    apply List.map_congr_left
+    intro j _
+    exact occ_restLin t hw j
+
+theorem zipIdx_formal (fo : List Nat) :
+    (fo.zipIdx.map fun p => formalBlocks p.2 p.1) =
+      (List.range fo.length).map fun i => formalBlocks i (fo[i]?.getD 0) := by
+  apply List.ext_getElem
+  · simp
+  · intro n h1 h2
+    simp only [List.length_map, List.length_zipIdx] at h1
+    simp [List.getElem?_eq_getElem h1]
+
+theorem func_eq_parts (f : Func) (k : Nat) (hl : f.length = k + 3) :
+    f[0]?.getD [] :: ((List.range' 1 (k + 1)).map (fun j => f[j]?.getD []) ++ [f[1 + k + 1]?.getD []]) = f := by
+  apply List.ext_getElem
+  · simp; omega
+  · intro n h1 h2
+    rcases n with _ | n
+    · simp [List.getElem?_eq_getElem h2]
+    · simp only [List.getElem_cons_succ]
+      by_cases hn : n < k + 1
+      · rw [List.getElem_append_left (by simpa using hn)]
+        simp only [List.getElem_map, List.getElem_range']
+        rw [List.getElem?_eq_getElem (by omega)]
+        simp only [Option.getD_some]
+        congr 1; omega
+      · rw [List.getElem_append_right (by simpa using hn)]
+        simp only [List.length_map, List.length_range', List.getElem_singleton]
+        have : n + 1 = 1 + k + 1 := by
+          simp only [List.length_cons, List.length_append, List.length_map, List.length_range',
+            List.length_nil] at h1
+          omega
+        rw [List.getElem?_eq_getElem (by omega)]
+        simp only [Option.getD_some]
+        congr 1; omega
+
+theorem linAtoms_back (l : Lin) (h : ∀ a ∈ l, ∀ v ∈ a, 0 ≤ v.1) :
+    ((linAtoms l).map fun arg => arg.map fun (p : Atom) => ((p.1 : Int), p.2)) = l := by
+  unfold linAtoms
+  rw [List.map_map]
+  conv => rhs; rw [← List.map_id l]
+  apply List.map_congr_left
+  intro a ha
+  simp only [Function.comp, List.map_map, id]
+  conv => rhs; rw [← List.map_id a]
+  apply List.map_congr_left
+  intro v hv
+  have := h a ha v hv
+  obtain ⟨p, j⟩ := v
+  simp only [Function.comp, id, Prod.mk.injEq, and_true]
+  exact Int.toNat_of_nonneg this
+
+/-- well-formedness of a rule in the form used here: the linearization is ordered, non-deleting and non-erasing
+    over the right-hand-side elements of `f`, the fan-out of element `i` being its number of variables -/
+def CWF (f : Func) (l : Lin) : Prop := wfLin l ((List.range (f.length - 1)).map (occ l)) = true
+
+theorem unbinChain_chainR (f : Func) (l : Lin) (k s : Nat) (hl : f.length = k + 3) (hk : 1 ≤ k) (hw : CWF f l) :
+    unbinChain (chainR f k 1 (f[0]?.getD []) l s) = some (f, l) := by
+  have hw' : wfLin l ((List.range (k + 2)).map (occ l)) = true := by
+    unfold CWF at hw
+    have : f.length - 1 = k + 2 := by omega
+    rwa [this] at hw
+  have hWF : WF' l := WF'_of_wfLin l _ hw'
+  obtain ⟨k', rfl⟩ : ∃ k', k = k' + 1 := ⟨k - 1, by omega⟩
+  have hfos := fosOf_chainR f (k' + 1) 1 (f[0]?.getD []) l s hWF
+  have hlins := chainR_lins f (k' + 1) 1 (f[0]?.getD []) l s
+  have hfirsts := chainR_firsts f (k' + 1) 1 (f[0]?.getD []) l s
+  have hlast := chainR_lastSecond f (k' + 1) 1 (f[0]?.getD []) l s
+  have hshape : ∃ a b rest, chainR f (k' + 1) 1 (f[0]?.getD []) l s = a :: b :: rest ∧ a.1.head? = some (f[0]?.getD []) := by
+    cases k' with
+    | zero => exact ⟨_, _, _, rfl, rfl⟩
+    | succ n => exact ⟨_, _, _, rfl, rfl⟩
+  obtain ⟨a, b, rest, hc, ha⟩ := hshape
+  rw [hc] at hfos hlins hfirsts hlast ⊢
+  rw [unbinChain_long, hfos, hlins, hfirsts, hlast, zipIdx_formal]
+  have hev : evalChain (chainLins l (k' + 1))
+      ((List.range ((List.range (k' + 1 + 2)).map (occ l)).length).map fun i =>
+        formalBlocks i (((List.range (k' + 1 + 2)).map (occ l))[i]?.getD 0)) = some (linAtoms l) := by
+    rw [evalChain_chainLins _ _ _ hWF (by simp)]
+    exact instLin_formal l _ hw'
+  rw [hev]
+  simp only [ha, Option.getD_some]
+  rw [func_eq_parts f (k' + 1) hl, linAtoms_back l hWF.pos]
+
+
+/-! ### `aggregate` and `sameBag` -/
+
+/-- summed count of the rules with key `k` -/
+def ksum (k : Func × Lin) (rs : List Rule) : Nat := rsum (fun f l => if (f, l) = k then 1 else 0) rs
+
+def aggStep (acc : AList (Func × Lin) Nat) (e : Rule) : AList (Func × Lin) Nat :=
+  AList.upsert (e.1, e.2.1) (fun o => o.getD 0 + e.2.2) acc
+
+theorem aggregate_eq (rs : List Rule) : aggregate rs = rs.foldl aggStep [] := rfl
+
+theorem agg_isSome (k : Func × Lin) : ∀ (rs : List Rule) (acc : AList (Func × Lin) Nat),
+    (AList.get? k (rs.foldl aggStep acc)).isSome = true ↔ hasKey rs k.1 k.2 ∨ (AList.get? k acc).isSome = true
+  | [], acc => by simp [hasKey]
+  | e :: rs, acc => by
+    rw [List.foldl_cons, agg_isSome k rs, aggStep, get?_upsert]
+    obtain ⟨f, l, c⟩ := e
+    obtain ⟨kf, kl⟩ := k
+    simp only [hasKey, List.mem_cons, Prod.mk.injEq]
+    by_cases h : kf = f ∧ kl = l
+    · rw [if_pos h]
+      constructor
+      · intro _; exact Or.inl ⟨c, Or.inl ⟨h.1, h.2, rfl⟩⟩
+      · intro _; exact Or.inr rfl
+    · rw [if_neg h]
+      constructor
+      · rintro (⟨c', h'⟩ | h')
+        · exact Or.inl ⟨c', Or.inr h'⟩
+        · exact Or.inr h'
+      · rintro (⟨c', ⟨a, b, _⟩ | h'⟩ | h')
+        · exact absurd ⟨a, b⟩ h
+        · exact Or.inl ⟨c', h'⟩
+        · exact Or.inr h'
+
+theorem agg_getD (k : Func × Lin) : ∀ (rs : List Rule) (acc : AList (Func × Lin) Nat),
+    (AList.get? k (rs.foldl aggStep acc)).getD 0 = (AList.get? k acc).getD 0 + ksum k rs
+  | [], acc => by simp [ksum, rsum]
+  | e :: rs, acc => by
+    rw [List.foldl_cons, agg_getD k rs, aggStep, get?_upsert]
+    unfold ksum
+    rw [rsum_cons]
+    by_cases h : k = (e.1, e.2.1)
+    · subst h
+      simp; omega
+    · have h' : ¬ (e.1, e.2.1) = k := fun e' => h e'.symm
+      simp [h, h']
+
+theorem agg_keys_nodup : ∀ (rs : List Rule) (acc : AList (Func × Lin) Nat), (acc.map (·.1)).Nodup →
+    ((rs.foldl aggStep acc).map (·.1)).Nodup
+  | [], _, h => h
+  | _ :: rs, _, h => agg_keys_nodup rs _ (upsert_keys_nodup _ _ _ h)
+
+theorem mem_iff_get? {κ ν} [DecidableEq κ] : ∀ (m : AList κ ν), (m.map (·.1)).Nodup → ∀ k v,
+    (k, v) ∈ m ↔ AList.get? k m = some v
+  | [], _, k, v => by simp [AList.get?]
+  | (a, w) :: m, h, k, v => by
+    rw [List.map_cons, List.nodup_cons] at h
+    have ih := mem_iff_get? m h.2 k v
+    by_cases e : a = k
+    · subst e
+      have : ∀ v', (a, v') ∉ m := fun v' hm => h.1 (List.mem_map.2 ⟨_, hm, rfl⟩)
+      simp only [List.mem_cons, Prod.mk.injEq, true_and, AList.get?, List.find?_cons, decide_true,
+        Option.map_some, Option.some.injEq, this, or_false]
+      exact eq_comm
+    · have e' : ¬ k = a := fun x => e x.symm
+      simp only [List.mem_cons, Prod.mk.injEq, e', false_and, false_or, ih]
+      simp [AList.get?, e]
+
+theorem option_ext (a b : Option Nat) (h1 : a.isSome = true ↔ b.isSome = true) (h2 : a.getD 0 = b.getD 0) :
+    a = b := by
+  cases a <;> cases b <;> simp_all
+
+theorem perm_of_get? {κ ν} [DecidableEq κ] (m1 m2 : AList κ ν) (h1 : (m1.map (·.1)).Nodup)
+    (h2 : (m2.map (·.1)).Nodup) (h : ∀ k, AList.get? k m1 = AList.get? k m2) : m1.Perm m2 := by
+  have nd : ∀ m : AList κ ν, (m.map (·.1)).Nodup → m.Nodup := by
+    intro m hm
+    unfold List.Nodup at hm ⊢
+    rw [List.pairwise_map] at hm
+    exact hm.imp (fun hab e => hab (by rw [e]))
+  rw [List.perm_ext_iff_of_nodup (nd m1 h1) (nd m2 h2)]
+  rintro ⟨k, v⟩
+  rw [mem_iff_get? m1 h1, mem_iff_get? m2 h2, h k]
+
+theorem agg_perm (L1 L2 : List Rule) (hk : ∀ f l, hasKey L1 f l ↔ hasKey L2 f l)
+    (hs : ∀ k, ksum k L1 = ksum k L2) : (aggregate L1).Perm (aggregate L2) := by
+  rw [aggregate_eq, aggregate_eq]
+  apply perm_of_get? _ _ (agg_keys_nodup L1 [] (by simp)) (agg_keys_nodup L2 [] (by simp))
+  intro k
+  apply option_ext
+  · rw [agg_isSome, agg_isSome, hk]
+  · rw [agg_getD, agg_getD, hs]
+
+theorem sameBag_of_perm {α} [BEq α] (a b : List α) (h : a.Perm b) : sameBag a b = true := by
+  unfold sameBag
+  simp only [Bool.and_eq_true, beq_iff_eq, List.all_eq_true]
+  exact ⟨h.length_eq, fun x _ => h.count_eq x⟩
+
+/-! ### from the rules of a built grammar back to the additions -/
+
+/-- un-binarize one rule with `ψ`, keeping its count -/
+def liftC (ψ : Func → Lin → Option (Func × Lin)) (e : Rule) : Option Rule :=
+  (ψ e.1 e.2.1).map fun k => (k.1, k.2, e.2.2)
+
+theorem hasKey_filterMap (qq : Func → Bool) (ψ : Func → Lin → Option (Func × Lin)) (rs : List Rule) (f : Func) (l : Lin) :
+    hasKey ((rs.filter fun e => qq e.1).filterMap (liftC ψ)) f l ↔
+      ∃ f0 l0, hasKey rs f0 l0 ∧ qq f0 = true ∧ ψ f0 l0 = some (f, l) := by
+  simp only [hasKey, List.mem_filterMap, List.mem_filter, liftC, Option.map_eq_some_iff]
+  constructor
+  · rintro ⟨c, ⟨f0, l0, c0⟩, ⟨hm, hq⟩, ⟨kf, kl⟩, hψ, he⟩
+    simp only [Prod.mk.injEq] at he
+    refine ⟨f0, l0, ⟨c0, hm⟩, hq, ?_⟩
+    rw [hψ, he.1, he.2.1]
+  · rintro ⟨f0, l0, ⟨c0, hm⟩, hq, hψ⟩
+    exact ⟨c0, (f0, l0, c0), ⟨hm, hq⟩, (f, l), hψ, rfl⟩
+
+theorem ksum_filterMap (qq : Func → Bool) (ψ : Func → Lin → Option (Func × Lin)) (k : Func × Lin) :
+    ∀ rs : List Rule, ksum k ((rs.filter fun e => qq e.1).filterMap (liftC ψ)) =
+      rsum (fun f l => if qq f = true ∧ ψ f l = some k then 1 else 0) rs
+  | [] => rfl
+  | e :: rs => by
+    rw [rsum_cons, ← ksum_filterMap qq ψ k rs]
+    by_cases hq : qq e.1 = true
+    · rw [List.filter_cons_of_pos (by simpa using hq)]
+      cases hψ : ψ e.1 e.2.1 with
+      | none =>
+        rw [List.filterMap_cons_none (by simp [liftC, hψ])]
+        simp [hq]
+      | some k' =>
+        rw [List.filterMap_cons_some (by simp [liftC, hψ]; rfl)]
+        unfold ksum
+        rw [rsum_cons]
+        by_cases e' : k' = k
+        · subst e'; simp [hq]
+        · simp [hq, e']
+    · rw [List.filter_cons_of_neg (by simpa using hq)]
+      simp [hq]
+
+theorem hasKey_congr (A : List Rule) (P : Func → Lin → Prop) :
+    (∃ f0 l0, hasKey (build A []).rules f0 l0 ∧ P f0 l0) ↔ (∃ f0 l0, hasKey A f0 l0 ∧ P f0 l0) := by
+  have : ∀ f0 l0, hasKey (build A []).rules f0 l0 ↔ hasKey A f0 l0 := by
+    intro f0 l0
+    rw [hasKey_build]
+    simp [hasKey, Grammar.rules]
+  simp only [this]
+
+/-- un-binarizing the non-binarization rules of a built grammar and aggregating gives the same table as doing it
+    on the sequence of additions -/
+theorem transfer_perm (A : List Rule) (qq : Func → Bool) (ψ : Func → Lin → Option (Func × Lin)) :
+    (aggregate (((build A []).rules.filter fun e => qq e.1).filterMap (liftC ψ))).Perm
+      (aggregate ((A.filter fun e => qq e.1).filterMap (liftC ψ))) := by
+  apply agg_perm
+  · intro f l
+    rw [hasKey_filterMap, hasKey_filterMap]
+    exact hasKey_congr A (fun f0 l0 => qq f0 = true ∧ ψ f0 l0 = some (f, l))
+  · intro k
+    rw [ksum_filterMap, ksum_filterMap, rsum_build]
+    simp [rsum, Grammar.rules]
+
+theorem transfer_isSome (A : List Rule) (qq : Func → Bool) (ψ : Func → Lin → Option (Func × Lin))
+    (h : ∀ e ∈ A, qq e.1 = true → (ψ e.1 e.2.1).isSome = true) :
+    ∀ e ∈ (build A []).rules, qq e.1 = true → (ψ e.1 e.2.1).isSome = true := by
+  intro e he hq
+  have : hasKey (build A []).rules e.1 e.2.1 := ⟨e.2.2, he⟩
+  rw [hasKey_build] at this
+  rcases this with ⟨c, hc⟩ | ⟨c, hc⟩
+  · exact h (e.1, e.2.1, c) hc hq
+  · simp [Grammar.rules] at hc
+
 end TT.Lemmas.Unbin
